@@ -8,7 +8,7 @@ def run(bdir, tier, known_ids, deadline, variant='tsan'):
     objs = BL.build_objects(bdir, variant)
     exe = os.path.join(bdir, 'tsanrun-' + variant)
     bdefs, _ = BL.backend_flags(BL.VARIANTS[variant][2])
-    extra = [] if variant == 'tsan' else [os.path.join(V, 'sched', 'idnstub_mt.c')]      # the other back ends run on thread-safe stand-ins for their IDN library
+    extra = [] if variant in ('tsan', 'tsan-opt7') else [os.path.join(V, 'sched', 'idnstub_mt.c')]      # the other back ends run on thread-safe stand-ins for their IDN library
     cmd = ['clang', '-O1', '-g', '-fsanitize=thread', '-std=gnu99', '-Wno-unused-function', '-I' + os.path.join(R, 'include'), '-I' + R, '-I' + os.path.join(V, 'sched')] + bdefs + BL.BASE_DEFS + \
           ['-o', exe, os.path.join(V, 'sched', 'tsanrun.c')] + extra + objs + ['-lidn2', '-lpthread']
     rc, out = BL.sh(cmd)
@@ -47,5 +47,6 @@ def run(bdir, tier, known_ids, deadline, variant='tsan'):
     return res
 
 
+def run_opt7(bdir, tier, known_ids, deadline): return run(bdir, tier, known_ids, deadline, variant='tsan-opt7')
 def run_idn(bdir, tier, known_ids, deadline): return run(bdir, tier, known_ids, deadline, variant='tsan-idn')
 def run_idnkit(bdir, tier, known_ids, deadline): return run(bdir, tier, known_ids, deadline, variant='tsan-idnkit')
